@@ -1,4 +1,5 @@
 """C16 — recompute_edges touches only burst edges and only grows bursts.  Model/Edges.v."""
+import json
 import math
 import numpy as np
 from harness import coqio, gen, pipeline, tablelayout
@@ -25,8 +26,16 @@ RULE = ('recompute_edges (function and Bycycle.recompute_edges) on cycle tables 
         'labels = threshold-and-run rule on the edited table with the thresholds passed; growth only where the property promises it '
         '(every new threshold <= the old one and min_n_cycles not larger). Thresholds outside [0,1] / negative min_n_cycles are '
         'outside the property\'s domain: no oracle verdict, only the model comparison (ValueError). '
+        'Stream G (14 groups quick / 110 thorough, kind edges-group/<mode>/<shape>, ONE CASE PER MEMBER TABLE): BycycleGroup fitted (n_jobs=1) on '
+        'pairwise different signals (shifted, scaled, own noise) - 2-D arrays of 1..5 rows (axis 0), flattened epochs (axis None), '
+        '3-D arrays of leading shape 1x2, 2x1, 2x3, 3x2, 1x3, 3x1, 2x4, 4x2, 2x2, 1x1 with axis (0,1) / 0 / 1 - then '
+        'BycycleGroup.recompute_edges(r); the table bg.df_features holds at the member position and, where it is another table, '
+        'bg.models[...].df_features are judged by the same oracle (input = the table the group held at that position before the call, '
+        'thresholds = the group\'s lowered by r) and the member is compared with the model through the same runner; members whose '
+        'table starts or ends inside a burst (epochs of a flattened fit) are outside the domain: skipped, counted (kind .../skip). '
         'non-trivial = the input table contains a burst and a non-burst cycle; stream C: no burst in the input and a label in the result')
-ASSUMPTIONS = ['the input table comes from consistency burst detection (first and last cycle not bursting)',
+ASSUMPTIONS = ['the input table comes from consistency burst detection (first and last cycle not bursting); group members that are '
+               'epochs cut out of a flattened fit and start / end inside a burst are not judged',
                'a threshold dictionary that omits keys means the documented defaults of detect_bursts_cycles (0, .5, .5, .8, 3)']
 CYC = pipeline.CYC_KEYS
 COLS = ['amp_fraction', 'amp_consistency', 'period_consistency', 'monotonicity']
@@ -56,7 +65,166 @@ def cases(rng, tier):
     # column layout of the table handed to recompute_edges (the user sorted / re-assembled it, added a column of their own)
     for c in out:
         c['cols'] = tablelayout.gen_layout(rng)
+    # BycycleGroup.recompute_edges: one case PER MEMBER TABLE of a group fitted on pairwise different signals
+    for _ in range(14 if tier == 'quick' else 110):
+        out.extend(_group_cases(rng))
     return out
+
+
+# ---------------------------------------------------------------------------------------------------------------
+# group stream: the edge recomputation reached through BycycleGroup.recompute_edges
+
+AXES = {'rows': 0, 'flat': None, 'g3': (0, 1), 'g3ax0': 0, 'g3ax1': 1}
+SHAPES3 = [(1, 2), (2, 1), (2, 3), (3, 2), (1, 3), (3, 1), (2, 4), (4, 2), (2, 2), (1, 1)]      # mostly n0 != n1
+
+
+def _group_cases(rng):
+    """A group fit (2-D: every row / flattened epochs; 3-D: axis (0,1), 0, 1; leading shapes mostly not square) followed
+    by recompute_edges(r): one case per member position (row-major), all with the same group description, so that EVERY
+    member is judged by the single-table oracle and compared with the model through the single-table runner."""
+    s = gen.signal(rng, kind=rng.choice(['bursty', 'bursty', 'sparse', 'sum', 'asym', 'chirp', 'sine']), max_len=420)
+    thr = {'amp_fraction_threshold': rng.choice([0.0, 0.1, 0.3]), 'amp_consistency_threshold': rng.choice([0.3, 0.5, 0.7]),
+           'period_consistency_threshold': rng.choice([0.3, 0.5, 0.7]), 'monotonicity_threshold': rng.choice([0.5, 0.7, 0.8]),
+           'min_n_cycles': rng.choice([1, 2, 3])}
+    mode = rng.choice(['rows', 'rows', 'flat', 'g3', 'g3', 'g3', 'g3ax0', 'g3ax1'])
+    if mode == 'rows':
+        n0, n1 = rng.choice([1, 2, 3, 4, 5]), None
+    elif mode == 'flat':
+        n0, n1 = rng.choice([2, 3]), None
+    else:
+        n0, n1 = rng.choice(SHAPES3)
+    red = rng.choice([r for r in [0, 0.05, 0.1, 0.2, 0.3] if r <= min(thr[k] for k in CYC)])
+    if rng.random() < 0.1:
+        red = rng.choice([0.2, 0.3, 0.4])             # may leave [0, 1]: model comparison only
+    shape = '2d' if n1 is None else ('n0<n1' if n0 < n1 else 'n0>n1' if n0 > n1 else 'square')
+    base = {'kind': 'edges-group/%s/%s' % (mode, shape), 'sig': gen.hexlist(s['sig']), 'fs': s['fs'], 'f_range': list(s['f_range']),
+            'center': rng.choice(['peak', 'trough']), 'thr': thr, 'reduction': red, 'via': 'group',
+            'group': {'mode': mode, 'n0': n0, 'n1': n1, 'gseed': rng.randrange(10 ** 6)},
+            'cols': tablelayout.gen_layout(rng)}
+    return [dict(base, member=p) for p in range(n0 * (n1 or 1))]
+
+
+def _group_array(base, g):
+    """n0 (x n1) pairwise different signals of one length derived from the base signal (shifted, scaled, own noise)."""
+    nr = np.random.default_rng(g['gseed'])
+    m = g['n0'] * (g['n1'] or 1)
+    rows = [np.roll(base, 11 * p) * (1 + 0.1 * p) + 0.01 * nr.standard_normal(len(base)) for p in range(m)]
+    a = np.array(rows)
+    return a if g['n1'] is None else a.reshape(g['n0'], g['n1'], -1)
+
+
+_GCACHE = {}          # per worker process: the last group run (its member cases are neighbours in the case list)
+
+
+def _run_group(c):
+    key = json.dumps({k: v for k, v in c.items() if k != 'member'}, sort_keys=True)
+    if key not in _GCACHE:
+        _GCACHE.clear()
+        _GCACHE[key] = _run_group_all(c)
+    outs = _GCACHE[key]
+    if isinstance(outs, dict):
+        return outs
+    return outs[c['member']] if c['member'] < len(outs) else {'group_problem': 'no table at member position %d' % c['member']}
+
+
+def _get(x, p, width):
+    return x[p] if width is None else x[p // width][p % width]
+
+
+def _run_group_all(c):
+    from bycycle import BycycleGroup
+    from bycycle.burst import recompute_edges
+    g = c['group']
+    arr = _group_array(gen.unhexlist(c['sig']), g)
+    three_d = g['n1'] is not None
+    bg = BycycleGroup(center_extrema=c['center'], thresholds=dict(c['thr']))
+    try:
+        bg.fit(arr, c['fs'], tuple(c['f_range']), axis=AXES[g['mode']], n_jobs=1)
+    except Exception as e:
+        return {'skip': 'group fit raised %s' % exc_kind(e)}
+    try:
+        width = len(bg.df_features[0]) if three_d else None
+        m = sum(len(x) for x in bg.df_features) if three_d else len(bg.df_features)
+        lay = c.get('cols')
+        held = []
+        for p in range(m):
+            df = _get(bg.df_features, p, width)
+            if lay:
+                df = tablelayout.apply_layout(df, lay)
+                if three_d:
+                    bg.df_features[p // width][p % width] = df
+                else:
+                    bg.df_features[p] = df
+                _get(bg.models, p, width).df_features = df
+            held.append(df)
+    except Exception as e:
+        return {'skip': 'group containers not position-wise (%s)' % exc_kind(e)}      # C11 / C12 judge the containers
+    snaps = [df.copy() for df in held]
+    red = {k: (v - c['reduction'] if k.endswith('threshold') else v) for k, v in c['thr'].items()}
+    outside = [len(df) > 0 and bool(df['is_burst'].iloc[0] or df['is_burst'].iloc[-1]) for df in snaps]
+    try:
+        bg.recompute_edges(c['reduction'] if c['reduction'] else None)
+    except Exception as e:
+        # a member table on which the functional recomputation raises the same does not allow a recomputation (an epoch
+        # of a flattened fit that starts / ends inside a burst): nothing is judged, counted as skipped
+        for df, outd in zip(snaps, outside):
+            if not outd:
+                continue
+            try:
+                recompute_edges(df.copy(), dict(red))
+            except Exception as e2:
+                if exc_kind(e2) == exc_kind(e):
+                    return {'skip': 'group recompute_edges and the functional recomputation of a member both raise %s' % exc_kind(e)}
+        outs = []
+        for df, outd in zip(snaps, outside):
+            if outd:
+                outs.append({'skip': 'member table starts / ends inside a burst (epoch of a flattened fit): outside the domain'})
+                continue
+            o = _rows_out(df, red)
+            o['err'], o['msg'] = exc_kind(e), str(e)[:160]
+            outs.append(o)
+        return outs
+    outs = []
+    for p in range(m):
+        if outside[p]:
+            outs.append({'skip': 'member table starts / ends inside a burst (epoch of a flattened fit): outside the domain'})
+            continue
+        try:
+            res = _get(bg.df_features, p, width)
+            mres = _get(bg.models, p, width).df_features
+        except Exception as e:
+            outs.append({'group_problem': 'no table at member position %d after recompute_edges (%s)' % (p, exc_kind(e))})
+            continue
+        o = _member_out(held[p], snaps[p], res, red)
+        if mres is not res:
+            alt = _member_out(held[p], snaps[p], mres, red)
+            if alt != o:
+                o['alt'] = alt
+        outs.append(o)
+    return outs
+
+
+def _rows_out(df, red):
+    return {'rows': [{'rise': _f(float(df['volt_rise'].iloc[i])), 'decay': _f(float(df['volt_decay'].iloc[i])), 'period': int(df['period'].iloc[i]),
+                      'f': [_f(float(df[col].iloc[i])) for col in COLS], 'lab': bool(df['is_burst'].iloc[i])} for i in range(len(df))],
+            'red': dict(red)}
+
+
+def _member_out(held, snap, res, red):
+    o = _rows_out(snap, red)
+    o['input_unchanged'] = bool(snap.equals(held))
+    o['same_object'] = res is held
+    try:
+        o['res'] = [{'ac': _f(float(res['amp_consistency'].iloc[i])), 'pc': _f(float(res['period_consistency'].iloc[i])),
+                     'lab': bool(res['is_burst'].iloc[i])} for i in range(len(res))]
+        other = [col for col in snap.columns if col not in ('amp_consistency', 'period_consistency', 'is_burst')]
+        o['others_unchanged'] = bool(len(res) == len(snap) and set(res.columns) == set(snap.columns) and
+                                     list(res.index) == list(snap.index) and
+                                     all(tablelayout.same_column(res[col], snap[col]) for col in other))
+    except Exception as e:
+        o['res'] = []
+        o['others_unchanged'] = False
+    return o
 
 
 def _noburst_case(rng):
@@ -125,6 +293,8 @@ def _uf(x):
 def run_impl(c):
     from bycycle.features import compute_features
     from bycycle.burst import recompute_edges
+    if c.get('via') == 'group':
+        return _run_group(c)
     sig = gen.unhexlist(c['sig'])
     try:
         df = compute_features(sig, c['fs'], tuple(c['f_range']), center_extrema=c['center'], threshold_kwargs=dict(c['thr']))
@@ -182,6 +352,21 @@ def _ratio(a, b):
 
 
 def oracle(c, o):
+    """Group members: the table bg.df_features holds at the position and, where it is another table, the one the model
+    bg.models holds there - both judged as the result of recomputing the table the group held there before the call."""
+    if 'group_problem' in o:
+        return 'BycycleGroup.recompute_edges: ' + o['group_problem']
+    msg = _oracle1(c, o)
+    if msg and c.get('via') == 'group':
+        return 'group member %d (df_features): %s' % (c['member'], msg)
+    if not msg and 'alt' in o:
+        msg = _oracle1(c, o['alt'])
+        if msg:
+            return 'group member %d (models[...].df_features): %s' % (c['member'], msg)
+    return msg
+
+
+def _oracle1(c, o):
     if 'skip' in o:
         return None
     if any(not (0 <= o['red'][k] <= 1) for k in CYC) or o['red']['min_n_cycles'] < 0:
@@ -276,7 +461,7 @@ def kind_of(c, o):
 
 
 def coq_case(c, o):
-    if 'skip' in o:
+    if 'skip' in o or 'group_problem' in o:
         return None
     rows = o['rows']
     items = ['(%s, %s, %d%%Z, (%s), %s)' % (coqio.fl(_uf(r['rise'])), coqio.fl(_uf(r['decay'])), r['period'],
